@@ -15,7 +15,7 @@ mirror recursion for the decreasing case included)."""
 import ast
 
 from ..model import (AnalysisError, FunctionInfo, dotted, norm_text,
-                     const_value, call_args)
+                     const_value, call_args, fold_ifexp)
 
 GIVEN = 'GIVEN'          # a bound that is configured (not None)
 TENSOR = 'TENSOR'        # a single tensor (not a list / tuple)
@@ -303,6 +303,8 @@ class Interp(object):
     for st in stmts:
       if isinstance(st, ast.Expr):
         continue
+      if isinstance(st, ast.If) and isinstance(fold_ifexp(st), ast.Assign):
+        st = fold_ifexp(st)      # `x = A if c else B` in its normal form
       if isinstance(st, ast.Return):
         rets.append(self.val(fn, st.value, env) if st.value is not None
                     else V(None))
